@@ -57,12 +57,24 @@ class C07(Prop):
     id = "C07"
     thorough_rounds = 12   # thorough tier: this many independently seeded rounds of the random generators (duplicates dropped)
     modules = ["H3.Props.C07", "H3.Lemmas.GenAgreeReq", "H3.Lemmas.GenAgreeFrame", "H3.Lemmas.Iso", "H3.Lemmas.IsoLift",
-               "H3.Lemmas.IsoPolledFS", "H3.Lemmas.IsoPolledReq", "H3.Lemmas.IsoPolled"]
+               "H3.Lemmas.IsoPolledFS", "H3.Lemmas.IsoPolledReq", "H3.Lemmas.IsoPolled", "H3.Lemmas.IsoFault"]
     engines = ["iso"]
     design_ref = "DESIGN.md section 7, C07; section 12 'C07' (three paragraphs); reading R-07"
     level_text = ("Lean theorems over the product machine H3.Iso (any number of request machines = the C03 receive machine over the "
                   "FrameStream model + a send half with write credit, sharing one error cell; the driver closes when it finds the cell "
                   "filled; histories = arbitrary lists of per-stream peer events, per-stream API polls and driver polls, unbounded): "
+                  "C07_documented_histories_are_stream_scoped + C07_documented_stream_never_told_connection_error (whole histories, "
+                  "hypothesis on the INPUT only - DocStream: every stream's transport events are non-empty chunks carrying a prefix of "
+                  "the bytes of a validly framed message U* H (U|D)* (H U*)?, or of unknown frames only, ended by nothing yet, by FIN "
+                  "on the message's last frame boundary, or by RESET with any code after ANY prefix; STOP_SENDING with any code and "
+                  "credit grants anywhere; the header oracle answers ok, malformed or over-the-limit, not a QPACK failure, for the head "
+                  "as a head and for the trailers as trailers; the application makes the documented calls - obeys, reading R-07: head "
+                  "polled until it answers, then recv_data call by call or as the body task, then recv_trailers, each polled again "
+                  "while Pending, NO receive call after one answered an error, send calls anywhere - => no call on any stream ever "
+                  "answers a connection-level error, i.e. the history IS StreamScoped), hence "
+                  "C07_connection_stays_open_documented and C07_neighbours_unaffected_documented with no hypothesis about the model's "
+                  "own run (proof: C02's CInv with the RESET admitted in the script, robust_next/robust_data, one lemma per call of the "
+                  "pattern, induction over the events: H3/Lemmas/IsoFault.lean); "
                   "C07_stream_fault_is_local (every stream-scoped fault transition - RESET with any code met at any point of the byte "
                   "stream by resolve/recv_response/recv_data/recv_trailers/the body loop, STOP_SENDING met by a send call, malformed "
                   "head or trailers, oversized head (431 written/refused/stopped) or trailers, FIN before HEADERS on a server "
